@@ -36,6 +36,8 @@ class Cfg:
         self.deb = 2
         self.qguess = 4
         self.plen = 32
+        self.maxpid = 4       # max_pid_guess, elf_interpreter_count_guess: sizing hints only (no counterpart in the model)
+        self.elfguess = 1
         self.ev = ["xn", "xe", "wn", "we", "del", "forb", "st"]  # None = nil
         for k, v in kw.items():
             setattr(self, k, v)
@@ -56,7 +58,7 @@ class Cfg:
             "journal_path = " + lua_str(self.journal), "offset_store_root = " + lua_str(self.offsets),
             "journal_timestamp_pattern = " + lua_str(self.jpat), "version_pattern = " + lua_str(self.vpat),
             "debounce_seconds = %d" % self.deb, "queue_size_guess = %d" % self.qguess,
-            "path_length_guess = %d" % self.plen, "max_pid_guess = 4", "elf_interpreter_count_guess = 1",
+            "path_length_guess = %d" % self.plen, "max_pid_guess = %d" % self.maxpid, "elf_interpreter_count_guess = %d" % self.elfguess,
         ]
         for n, v in zip(names, self.ev):
             lines.append("%s = %s" % (n, "nil" if v is None else lua_str(v)))
@@ -425,6 +427,13 @@ def scenarios(tier="quick"):
     s.config(c2)
     add("reload_new_queue", s, ["write 1 " + hexs(CFG_PATH)])
 
+    # the queue is moved while it is empty; what is accepted AFTER the reload must be found by a restart
+    # (which reads the configuration file, hence the new queue directory)
+    s, cfg = _pre(); s.put(A, "hello"); s.put(B, "world!"); s.start()
+    c2 = _c.deepcopy(cfg); c2.queue = R + "/k/var/queue2"; c2.deb = 1
+    s.config(c2); s.write(1, CFG_PATH); s.write(7, A)
+    add("accept_after_queue_move", s, ["write 7 " + hexs(B)])
+
     s, _ = _pre(base_cfg(deb=5)); s.put(A, "hello"); s.put(B, "world!"); s.start(); s.write(7, A); s.write(7, B); s.write(7, A); s.add("stop")
     add("start_existing_queue", s, ["start %s %d %s" % (s.cfgid, CPL, hexs(CFG_PATH))])
 
@@ -512,6 +521,9 @@ def gen_burst_case(rng, deb=None):
             s.tick(rng.choice([0, 1, 1, 2, deb, deb + 1]))
         elif r < 0.93:
             s.dump()
+            if rng.random() < 0.3:
+                # every transfer of this pass is cut short: a copy takes several sendfile calls
+                s.oracle("shortall", rng.choice([1, 2, 3, 5, 9]))
             s.timeout()
             s.dump()
         else:
@@ -574,6 +586,8 @@ def gen_collision_case(rng):
         # a long run of taken names: the first free one is far away (-64, -65, -70, -130)
         for k in range(rng.choice([64, 65, 70, 130])):
             s.put("%s/k/store/%s/%s%s%s" % (R, rel, ver, "-%d" % k if k else "", ext), "old %d" % k)
+        # ... and the process may hold 40 descriptors: probing any number of taken names must not use them up
+        s.add("nofile 40")
     for k in rng.sample(range(0, 6), rng.randint(0, 4)):
         s.put("%s/k/store/%s/%s%s%s" % (R, rel, ver, "-%d" % k if k else "", ext), "old %d" % k)
     if rng.random() < 0.3:
